@@ -130,7 +130,8 @@ def run(tier="quick", seed=0, replay=None):
         kind = chk.rng.choice(["pfi", "sage"])
         cfg = next(iter(_expl.gen_configs(chk, kind, 1)))
         alpha = chk.rng.choice([Q(1), Q(1, 2), Q(1, 3), Q(1, 1000), Q(999, 1000)])
-        cfg = dict(cfg, d=chk.rng.randint(1, 3), dynamic=True, alpha=alpha, model_kind="scalar", imputer_kind="joint")
+        cfg = dict(cfg, d=chk.rng.randint(2, 4), dynamic=True, alpha=alpha, model_kind="scalar", imputer_kind="joint",
+                   names_kind=chk.rng.choice(["str", "int", "float", "mixed", "intish", "intish"]), loss_kind="arbitrary", n_inner=1)
         rig = _expl.run_stream(chk, cfg, chk.rng.randint(2, 6))
         chk.case({"confidence_bound": True, "config": _expl.cfg_desc(cfg), "first_x": rig.steps[0]["x"]}, nontrivial=True, sample=(i < 1))
         chk.stat("explainer_runs")
